@@ -240,8 +240,10 @@ class ObsRef:
         obs = {"ACL": self._acl(node.acl if live else None, aclo, num_rules)}
         if num_ports:
             d = {}
+            explicit = r.get("ports")  # explicit port list: slot i shows port_id of the i-th entry, padded / truncated to num_ports
             for i in range(num_ports):
-                p = node.network_interface.get(i + 1) if live else None
+                pid = i + 1 if explicit is None else (explicit[i]["port_id"] if i < len(explicit) else None)
+                p = node.network_interface.get(pid) if (live and pid is not None) else None
                 d[i + 1] = {"operating_status": 0 if p is None else (1 if p.enabled else 2)}
             obs["PORTS"] = d
         if inc_users:
